@@ -1,10 +1,12 @@
 //! Registry of property checks.
 use crate::util::Check;
 
+pub mod c13;
 pub mod c18;
 
 pub fn lookup(id: &str) -> Option<Box<dyn Check>> {
     match id {
+        "C13" => Some(Box::new(c13::C13)),
         "C18" => Some(Box::new(c18::C18)),
         _ => None,
     }
